@@ -313,13 +313,14 @@ def desugar(x):
         k = fresh("key")
         clauses = []
         for cl in x[2:]:
+            body = [[cl[2], k]] if len(cl) == 3 and cl[1] == "=>" else cl[1:]      # (=> receiver): applied to the KEY
             if cl[0] == "else":
-                clauses.append(cl)
+                clauses.append(["else"] + body)
             else:
                 t = False
                 for d in reversed(cl[0]):
                     t = ["if", ["eq?", k, ["quote", d]], True, t]
-                clauses.append([t] + cl[1:])
+                clauses.append([t] + body)
         return desugar(["let", [[k, x[1]]], ["cond"] + clauses])
     if h == "and":
         if len(x) == 1:
@@ -338,11 +339,60 @@ def desugar(x):
         return ["if", desugar(x[1]), desugar(["begin"] + x[2:])]
     if h == "unless":
         return ["if", desugar(x[1]), ["if", False, False], desugar(["begin"] + x[2:])]
+    if h == "apply" and len(x) >= 3:
+        # SPEC side of `apply`: the argument list is spread by a 5-way dispatch on its length (APPLY_DEF, prepended to the
+        # SPEC's program only); exact for lists of at most 4 elements, which is all the generators build
+        l = desugar(x[-1])
+        for a in reversed(x[2:-1]):
+            l = ["cons", desugar(a), l]
+        return ["%apply", desugar(x[1]), l]
+    if h == "quasiquote" and len(x) == 2:
+        return qq(x[1])
+    if h == "values":
+        # SPEC side of multiple values: one value is itself; otherwise a tagged list that only call-with-values opens
+        # (generated programs never return or inspect multiple values in any other way)
+        if len(x) == 2:
+            return desugar(x[1])
+        l = ["quote", []]
+        for a in reversed(x[1:]):
+            l = ["cons", desugar(a), l]
+        return ["cons", ["quote", "%mv"], l]
+    if h == "call-with-values" and len(x) == 3:
+        r = fresh("mv")
+        return [["lambda", [r], ["if", ["if", ["pair?", r], ["eq?", ["car", r], ["quote", "%mv"]], False],
+                                 ["%apply", desugar(x[2]), ["cdr", r]], [desugar(x[2]), r]]], [desugar(x[1])]]
     if h == "lambda":
         return ["lambda", x[1]] + [desugar(b) for b in x[2:]]
     if h == "define":
         return ["define", x[1]] + [desugar(b) for b in x[2:]]
     return [desugar(y) for y in x]
+
+
+def qq(t):
+    """R7RS 4.2.8, nesting level 1, lists only: the template as cons / %append (APPEND_DEF, SPEC side only) calls"""
+    if not isinstance(t, list):
+        return ["quote", t] if isinstance(t, str) else t
+    if not t:
+        return ["quote", []]
+    if t[0] == "unquote" and len(t) == 2:
+        return desugar(t[1])
+    if t[0] in ("quasiquote", "unquote-splicing"):
+        raise Unsupported("nested quasiquote / splicing outside a list")
+    if "." in t:
+        i = t.index(".")
+        out = qq(t[i + 1])
+        t = t[:i]
+    else:
+        out = ["quote", []]
+    for el in reversed(t):
+        if isinstance(el, list) and el and el[0] == "unquote-splicing":
+            out = ["%append", desugar(el[1]), out]
+        else:
+            out = ["cons", qq(el), out]
+    return out
+
+
+APPEND_DEF = ["define", ["%append", "a", "b"], ["if", ["pair?", "a"], ["cons", ["car", "a"], ["%append", ["cdr", "a"], "b"]], "b"]]
 
 
 class LamObj:
@@ -404,7 +454,13 @@ def analyze(x, env, user_globals):
             ps, rest = split_params(x[1])
             l = LamObj(ps, rest)
             body, defs = [], []
-            for f in x[2:]:
+            bforms = []
+            for f in x[2:]:                                   # R7RS 5.3.2 / 4.2.3: a begin of definitions in a body is spliced
+                if isinstance(f, list) and f and f[0] == "begin" and any(isinstance(g, list) and g and g[0] == "define" for g in f[1:]):
+                    bforms += f[1:]
+                else:
+                    bforms.append(f)
+            for f in bforms:
                 if isinstance(f, list) and f and f[0] == "define" and not any("define" in e.frame() for e in [l] + env):
                     if isinstance(f[1], list):
                         name, val = f[1][0], ["lambda", f[1][1:]] + f[2:]
@@ -506,10 +562,37 @@ def strip_for_a0(w):
     return [strip_for_a0(y) for y in w]
 
 
+def _nth(l, n):
+    for _ in range(n):
+        l = ["cdr", l]
+    return ["car", l]
+
+
+def _apply_def():
+    body = ["f"] + [_nth("l", i) for i in range(4)]
+    for n in (3, 2, 1, 0):
+        t = "l"
+        for _ in range(n):
+            t = ["cdr", t]
+        body = ["if", ["null?", t], ["f"] + [_nth("l", i) for i in range(n)], body]
+    return ["define", ["%apply", "f", "l"], body]
+
+
+APPLY_DEF = _apply_def()
+
+
+def uses_apply(x):
+    return isinstance(x, list) and (bool(x) and x[0] in ("apply", "call-with-values") or any(uses_apply(y) for y in x))
+
+
+def uses_head(x, h):
+    return isinstance(x, list) and (bool(x) and x[0] == h or any(uses_head(y, h) for y in x))
+
+
 def program_to_model(forms, names):
     """surface program -> list of wire ASTs (one per top-level form), by this file's own desugaring + analysis"""
     ug, out = set(), []
-    flat = []
+    flat = ([APPLY_DEF] if uses_apply(forms) else []) + ([APPEND_DEF] if uses_head(forms, "unquote-splicing") else [])
     for f in forms:                                        # R7RS 5.1: a top-level begin is spliced
         if isinstance(f, list) and f and f[0] == "begin" and len(f) > 1:
             flat += f[1:]
@@ -1068,7 +1151,7 @@ def toplevel_random(rng):
 
 
 def toplevel_family(rng, nrand):
-    out = [("toplevel/" + k, f) for k, f in TOPLEVEL_FIXED]
+    out = [("toplevel-" + k, f) for k, f in TOPLEVEL_FIXED]
     for i in range(nrand):
         out.append(("toplevel/random#%d" % i, toplevel_random(rng)))
     return out
@@ -1107,7 +1190,7 @@ def chain_family(rng=None, keep=None):
 MISC_CASES = [
     ("named-let-shadows-own-name", [["define", ["lp"], 7], ["let", "lp", [["x", ["lp"]]], "x"]]),
     ("named-let-tag-as-variable", [["let", "lp", [["lp2", 1]], ["if", ["=", "lp2", 1], ["lp", 2], "lp2"]]]),
-    ("named-let-param-named-like-tag", [["let", "lp", [["lp", 1]], "lp"]]),
+    ("named-let-param-named-like-tag-F-C03-3", [["let", "lp", [["lp", 1]], "lp"]]),
     ("named-let-init-outer-scope", [[["lambda", ["x"], ["let", "lp", [["x", ["+", "x", 1]], ["n", 0]], ["if", ["<", "n", 2], ["lp", ["+", "x", 1], ["+", "n", 1]], "x"]]], 10]]),
     ("do-fresh-binding-per-iteration", [["define", "acc", NIL],
                                         ["do", [["i", 0, ["+", "i", 1]]], [["=", "i", 3]], ["set!", "acc", ["cons", ["lambda", [], "i"], "acc"]]],
@@ -1132,6 +1215,10 @@ MISC_CASES = [
     ("case-key-once", [["define", "n", 0], ["define", ["k"], ["set!", "n", ["+", "n", 1]], 3],
                        [["lambda", ["r"], lst("r", "n")], ["case", ["k"], [[1, 2], Q("low")], [[3, 4], Q("mid")], ["else", Q("high")]]]]),
     ("case-symbols", [["case", Q("b"), [["a"], 1], [["b", "c"], 2], ["else", 3]]]),
+    ("case-arrow", [lst(["case", 3, [[1, 2], Q("low")], [[3], "=>", ["lambda", ["k"], ["cons", "k", 1]]], ["else", 0]],
+                        ["case", 9, [[1], 1], ["else", "=>", ["lambda", ["k"], ["cons", "k", 2]]]])]),
+    ("case-single-and-multi", [lst(["case", 2, [[2], Q("two")], ["else", 0]], ["case", 2, [[1, 2], Q("low")], ["else", 0]],
+                                   ["case", 5, [[2], Q("two")], [[3, 4], Q("mid")], ["else", Q("none")]])]),
     ("case-else", [["case", 9, [[1], 1], ["else", 3]]]),
     ("and-or-values", [lst(["and"], ["or"], ["and", 1, 2], ["or", False, 3], ["and", 1, False, 2], ["or", False, False])]),
     ("or-evaluates-once", [["define", "n", 0], ["define", ["t"], ["set!", "n", ["+", "n", 1]], "n"], [["lambda", ["r"], lst("r", "n")], ["or", ["t"], 5]]]),
@@ -1151,6 +1238,39 @@ MISC_CASES = [
                       [["lambda", ["p"], [["car", "p"]], [["car", "p"]], [["cdr", "p"]]], ["mk"]]]),
     ("when-unless-values", [["define", "x", 0], ["when", True, ["set!", "x", ["+", "x", 1]], ["set!", "x", ["+", "x", 1]]],
                             ["unless", True, ["set!", "x", 100]], ["unless", False, ["set!", "x", ["+", "x", 10]]], ["when", False, ["set!", "x", 100]], "x"]),
+    ("body-begin-defines", [[["lambda", ["a"], ["begin", ["define", "p", ["cons", "a", NIL]], ["define", ["q"], "p"]], lst(["q"], "p")], 1]]),
+    ("body-define-then-begin-defines", [["define", ["f", "a"], ["define", "x", 1], ["begin", ["define", "y", ["cons", "x", "a"]], ["define", ["z"], "y"]], ["z"]],
+                                        ["f", 5]]),
+    ("apply-rest-callee", [["define", ["f", "a", ".", "r"], ["cons", "a", "r"]], lst(["apply", "f", 1, lst(2, 3)], ["apply", "f", 1, NIL], ["apply", "f", lst(1, 2, 3, 4)], 99)]),
+    ("apply-pass-rest-through", [["define", ["f", "a", "b"], ["cons", "b", "a"]], ["define", ["g", ".", "r"], ["apply", "f", "r"]],
+                                 ["define", ["h", "x", ".", "r"], ["apply", "f", "x", "r"]], lst(["g", 1, 2], ["h", 3, 4], 99)]),
+    ("apply-spread-args", [lst(["apply", ["lambda", ["a", "b", "c"], lst("c", "b", "a")], 1, 2, lst(3)],
+                               ["apply", ["lambda", ["a", "b", "c", "d"], lst("d", "c", "b", "a")], 1, lst(2, 3, 4)],
+                               ["apply", ["lambda", [], 7], NIL], ["apply", ["lambda", "r", "r"], 1, 2, 3, NIL])]),
+    ("apply-tail-loop-with-rest", [["define", ["h", "n", ".", "r"], ["if", ["=", "n", 0], "r", ["apply", "h", ["-", "n", 1], ["cons", "n", "r"]]]], lst(["h", 3], 99)]),
+    ("apply-unused-rest", [["define", ["f", "a", ".", "r"], "a"], lst(["apply", "f", lst(1, 2, 3)], ["apply", "f", 5, NIL], 99)]),
+    ("apply-too-many", [["apply", ["lambda", ["a"], "a"], lst(1, 2)]]),
+    ("apply-too-few", [["apply", ["lambda", ["a", "b"], "a"], lst(1)]]),
+    ("apply-closure-captures", [[["lambda", ["k"], ["apply", ["lambda", ["a", ".", "r"], lst("k", "a", "r")], "k", lst(2, 3)]], 1]]),
+    ("values-two", [["call-with-values", ["lambda", [], ["values", 1, 2]], ["lambda", ["a", "b"], ["cons", "a", "b"]]]]),
+    ("values-rest-consumer", [["call-with-values", ["lambda", [], ["values", 1, 2, 3]], ["lambda", ["a", ".", "r"], ["cons", "r", "a"]]]]),
+    ("values-single-and-zero", [lst(["call-with-values", ["lambda", [], 5], ["lambda", ["a"], ["cons", "a", "a"]]],
+                                    ["call-with-values", ["lambda", [], ["values", 6]], ["lambda", ["a"], ["cons", "a", "a"]]],
+                                    ["call-with-values", ["lambda", [], ["values"]], ["lambda", [], 7]])]),
+    ("values-through-tail-positions", [["define", ["two", "n"], ["if", ["<", "n", 1], ["values", "n", 0], ["begin", 1, ["values", "n", ["-", "n", 1]]]]],
+                                       lst(["call-with-values", ["lambda", [], ["two", 0]], ["lambda", ["a", "b"], lst("a", "b")]],
+                                           ["call-with-values", ["lambda", [], ["two", 5]], ["lambda", ["a", "b"], lst("b", "a")]])]),
+    ("values-one-is-the-value", [lst(["values", 5], ["car", ["values", ["cons", 1, 2]]], [["lambda", ["p"], ["cdr", "p"]], ["values", ["cons", 3, 4]]])]),
+    ("values-arity-mismatch", [["call-with-values", ["lambda", [], ["values", 1, 2]], ["lambda", ["a"], "a"]]]),
+    ("quasiquote-unquote", [[["lambda", ["x"], ["quasiquote", [1, ["unquote", ["+", "x", 1]], "a", ["unquote", "x"]]]], 5]]),
+    ("quasiquote-splicing", [[["lambda", ["l", "e"], lst(["quasiquote", [1, ["unquote-splicing", "l"], 4]],
+                                                        ["quasiquote", [["unquote-splicing", "l"], ["unquote-splicing", "l"]]],
+                                                        ["quasiquote", [0, ["unquote-splicing", "e"], ["unquote-splicing", "l"]]],
+                                                        ["quasiquote", [["unquote-splicing", "e"]]])], lst(2, 3), NIL]]),
+    ("quasiquote-nested-lists", [[["lambda", ["x", "l"], ["quasiquote", [["a", ["unquote", "x"]], ["b", [["unquote-splicing", "l"], "c"]], []]]], 1, lst(2, 3)]]),
+    ("quasiquote-dotted-tail", [[["lambda", ["x", "l"], lst(["quasiquote", [1, ".", ["unquote", "x"]]], ["quasiquote", [1, ["unquote-splicing", "l"], ".", ["unquote", "x"]]])], 7, lst(2, 3)]]),
+    ("quasiquote-constant-and-atoms", [lst(["quasiquote", ["a", "b", [1, 2]]], ["quasiquote", 5], ["quasiquote", "s"], ["quasiquote", ["unquote", ["cons", 1, 2]]])]),
+    ("quasiquote-evaluation-order-free", [["define", ["f", ".", "r"], "r"], [["lambda", ["y"], ["quasiquote", [["unquote", ["f", "y", 1]], ["unquote-splicing", ["f", 2, "y"]]]]], 9]]),
     ("begin-empty-tail", [[["lambda", ["x"], ["begin", ["set!", "x", 1]], "x"], 0]]),
 ]
 
@@ -1181,10 +1301,10 @@ def model_requests(ctx, exe, reqs):
     return ctx.run_model(exe, reqs, timeout=1500)
 
 
-def check_programs(ctx, h, exe, progs, pair_type_hint=None, outer=True, label="C03"):
+def check_programs(ctx, h, exe, progs, pair_type_hint=None, outer=True, label="C03", timeout=None):
     """progs: list of (key, forms).  Runs everything; reports through ctx.  Returns list of per-program dicts."""
     texts = [" ".join(scm(f) for f in forms) for _, forms in progs]
-    hdr, answers = h.run(["PROGF " + t for t in texts])
+    hdr, answers = h.run(["PROGF " + t for t in texts], timeout=timeout)
     pair_type = hdr.get("pair-type", 6)
     names = Names()
     mreq, plan = [], []
@@ -1408,8 +1528,18 @@ def run_pairs(ctx, h, exe, progs):
         texts.append(t)
     if not ok:
         return []
+    # candidates that do not terminate are dropped BEFORE the real implementation and the SPEC interpreter see them: the
+    # model VM is bounded in steps (the SPEC's fuel bounds the depth only, a branching recursion would take forever)
     try:
-        plan = check_programs(ctx, h, exe, ok)
+        names = Names()
+        outs = ctx.run_model(exe, ["vm 20000 " + " ".join(sx_str(w) for w in program_to_model(f, names)) for k, f in ok], timeout=300)
+    except Exception:
+        return []
+    ok = [kf for kf, o in zip(ok, outs) if o.startswith("V ") or (o.startswith("E ") and o != "E STUCK")]
+    if not ok:
+        return []
+    try:
+        plan = check_programs(ctx, h, exe, ok, timeout=20)
     except Exception:
         return []
     return [(f, e["text"], e["spec"], e["impl"]) for (k, f), e in zip(ok, plan)]
@@ -1492,7 +1622,7 @@ def feature_families(rng, texts, full):
     fams.append(("captured variables in every position class", capture_pos_family()))
     fams.append(("capture patterns", capture_family()))
     fams.append(("closure chains", chain_family()))
-    fams.append(("derived-form scoping cases", [("misc/" + k, f) for k, f in MISC_CASES]))
+    fams.append(("derived-form scoping cases", [("misc-" + k, f) for k, f in MISC_CASES]))
     return fams
 
 
@@ -1569,7 +1699,7 @@ def run(ctx):
     h = Harness(d)
     rng = ctx.rng
     q = not ctx.thorough
-    progs = load_corpus() + [(k, f) for k, f in FIXED_CASES] + [("misc/" + k, f) for k, f in MISC_CASES] + [(k, f) for k, f in REDEFINE_READS_OLD]
+    progs = load_corpus() + [(k, f) for k, f in FIXED_CASES] + [("misc-" + k, f) for k, f in MISC_CASES] + [(k, f) for k, f in REDEFINE_READS_OLD]
     fam = capture_family()
     if q:
         fam = [fam[i] for i in sorted(rng.sample(range(len(fam)), min(240, len(fam))))]
